@@ -216,7 +216,6 @@ theorem set_slot_ls {a b : Nat} {l extra sub : List Node} {k : Nat} {slot x : No
 theorem take_drop_sub {α : Type} {l : List α} {a b : Nat} {x : α} (h : x ∈ (l.drop a).take b) : x ∈ l :=
   List.mem_of_mem_drop (List.mem_of_mem_take h)
 
-set_option maxHeartbeats 400000 in
 /-- **identity accounting, sequences, every call.** -/
 theorem seqStep_ls (n : Node) (hk : kok n = true) (hmap : isMap n.kind = false) (op : SeqOp)
     (hop : kokL (placedSeq op) = true) (next : Nat) :
